@@ -923,6 +923,10 @@ func vh_C04_front_security_Q() {
 	methodSecs := [][]alt{nil, {{"s1", []string{"b", "c"}}}, {{"s1", []string{"b"}}, {"s2", nil}}, {{"s3", nil}}}[methodChoice]
 	hasDefault := symxBool("default")
 	enforce := symxBool("enforce")
+	hidden := symxBool("hidden") // a hidden route is still registered and served by the router: the enforce flag covers it too
+	if hidden {
+		methodText += "// @Hidden\n"
+	}
 	cfg := vhFrontConfig()
 	for _, name := range []string{"s1", "s2", "s3"} {
 		cfg.OpenAPIGeneratorConfig.SecuritySchemes = append(cfg.OpenAPIGeneratorConfig.SecuritySchemes, definitions.SecuritySchemeConfig{
@@ -978,6 +982,10 @@ func vh_C04_front_security_Q() {
 	symxAssert(swagen30.GenerateControllersSpec(doc30, ocfg, meta.Flat) == nil && swagen31.GenerateControllersSpec(doc31, ocfg, meta.Flat) == nil, "C04.front.documents-no-error")
 	for vi, ops := range [][]vhOpView{vhOps30(doc30), vhOps31(doc31)} {
 		ver := []string{"30", "31"}[vi]
+		if hidden {
+			symxAssert(len(ops) == 0, "C04.front."+ver+".hidden-route-is-not-documented")
+			continue
+		}
 		symxAssert(len(ops) == 1, "C04.front."+ver+".one-operation")
 		if len(ops) != 1 {
 			continue
@@ -988,5 +996,78 @@ func vh_C04_front_security_Q() {
 				symxAssert(len(req.names) == 1 && req.names[0] == want[i].scheme && vhSameStrings(req.scopes[0], want[i].scopes), "C04.front."+ver+".documented-alternative")
 			}
 		}
+	}
+}
+
+// C01 through the front end, several files: the methods of a controller count wherever in the package they are declared
+func vh_C01_front_split_Q() {
+	hideB1 := symxBool("hideB1")
+	srcs := append([]string(nil), vhFrontSplitSrcs...)
+	if hideB1 {
+		srcs[1] = strings.Replace(srcs[1], "// @Route(/b1)\n", "// @Route(/b1)\n// @Hidden\n", 1)
+	}
+	fr, err := visitors.VhLoadSources(vhFrontSplitNames, srcs, nil)
+	symxAssert(err == nil, "C01.front.fixture-loads")
+	if err != nil {
+		return
+	}
+	meta, err := pipeline.VhNewPipeline(fr, vhFrontConfig()).Run()
+	symxAssert(err == nil, "C01.front.project-is-accepted")
+	if err != nil {
+		return
+	}
+	doc30, doc31 := vhNewDoc30(), vhNewDoc31()
+	cfg := &definitions.OpenAPIGeneratorConfig{}
+	symxAssert(swagen30.GenerateControllersSpec(doc30, cfg, meta.Flat) == nil && swagen31.GenerateControllersSpec(doc31, cfg, meta.Flat) == nil, "C01.front.documents-no-error")
+	symxCover("C01.front.split-documented")
+	want := [][3]string{{"GET", "/z/a1", "A1"}, {"GET", "/z/c1", "C1"}, {"POST", "/y/b2", "B2"}, {"GET", "/y/c2", "C2"}}
+	if !hideB1 {
+		want = append(want, [3]string{"GET", "/z/b1", "B1"})
+	}
+	for vi, ops := range [][]vhOpView{vhOps30(doc30), vhOps31(doc31)} {
+		ver := []string{"30", "31"}[vi]
+		symxAssert(len(ops) == len(want), "C01.front."+ver+".exactly-the-visible-methods-of-all-files")
+		for _, w := range want {
+			op := vhFindOp(ops, w[1], w[0])
+			symxAssert(op != nil && op.opId == w[2], "C01.front."+ver+".method-declared-in-a-sibling-file-is-documented")
+		}
+	}
+}
+
+// C10 through the front end: slices and arrays are accepted as query parameters only
+func vh_C10_front_slices_Q() {
+	typ := []string{"[]string", "[]int", "[2]int", "string"}[symxChoice("type", 4)]
+	loc := []string{"Query", "Header", "FormField", "Path"}[symxChoice("loc", 4)]
+	route := "/r"
+	if loc == "Path" {
+		route = "/r/{v}"
+	}
+	src := `package ctl
+
+import "github.com/gopher-fleece/runtime"
+
+// @Tag(T)
+// @Route(/c)
+type Ctl struct {
+	runtime.GleeceController
+}
+
+// @Method(POST)
+// @Route(` + route + `)
+// @` + loc + `(v)
+func (c *Ctl) Op(v ` + typ + `) error { return nil }
+`
+	fr, err := visitors.VhLoadSource(src, nil)
+	symxAssert(err == nil, "C10.front.fixture-loads")
+	if err != nil {
+		return
+	}
+	_, err = pipeline.VhNewPipeline(fr, vhFrontConfig()).Run()
+	if typ == "string" || loc == "Query" {
+		symxCover("C10.front.slices.well-formed")
+		symxAssert(err == nil, "C10.front.well-formed-route-is-never-rejected")
+	} else {
+		symxCover("C10.front.slices.outside-query")
+		symxAssert(err != nil, "C10.front.slice-outside-the-query-is-rejected")
 	}
 }
